@@ -191,11 +191,48 @@ pub fn run(args: &Args) -> i32 {
                 }
                 None
             });
-            let variants: Vec<(&str, String, Option<usize>)> = vec![
-                ("material", extra.to_string(), text.find("= MATERIAL").and_then(|i| text[..i].rfind('\n'))),
-                ("day-schedule-named-as-a-yearly-one", day_twin.clone(), text.find("= DAY-SCHEDULE-PD").and_then(|i| text[..i].rfind('\n'))),
-                ("day-schedule-named-as-a-yearly-one-written-after-it", day_twin, after_last_year.map(|i| i - 1)),
+            let mut variants: Vec<(String, String, Option<usize>)> = vec![
+                ("material".into(), extra.to_string(), text.find("= MATERIAL").and_then(|i| text[..i].rfind('\n'))),
+                ("day-schedule-named-as-a-yearly-one".into(), day_twin.clone(), text.find("= DAY-SCHEDULE-PD").and_then(|i| text[..i].rfind('\n'))),
+                ("day-schedule-named-as-a-yearly-one-written-after-it".into(), day_twin, after_last_year.map(|i| i - 1)),
             ];
+            // an unused definition may refer to things that are in use: a CONSTRUCTION nobody uses, on a LAYERS block that walls use, with
+            // another absorptance and a name that sorts before (and after) every other one; a GAP nobody uses on a glass and a frame in use
+            {
+                let lines: Vec<&str> = text.lines().collect();
+                let mut seen = std::collections::BTreeSet::new();
+                let mut offset = 0usize;
+                let mut k = 0;
+                while k < lines.len() {
+                    if lines[k].trim_end().ends_with(" CONSTRUCTION") && lines[k].contains("\" =") {
+                        let mut j = k;
+                        let mut layers = None;
+                        let mut end = offset;
+                        let mut off = offset;
+                        while j < lines.len() {
+                            off += lines[j].len() + 1;
+                            if let Some(r) = lines[j].trim().strip_prefix("LAYERS") {
+                                layers = r.split('"').nth(1).map(|x| x.to_string());
+                            }
+                            if lines[j].trim() == ".." {
+                                end = off;
+                                break;
+                            }
+                            j += 1;
+                        }
+                        if let Some(l) = layers {
+                            if seen.len() < 6 && seen.insert(l.clone()) && end > 0 && end <= text.len() {
+                                for (prefix, abs) in [("AAA", "0.3"), ("zzz", "0.9")] {
+                                    let block = format!("\"{prefix} {l} verif\" = CONSTRUCTION\n  TYPE = LAYERS\n  LAYERS = \"{l}\"\n  ABSORPTANCE = {abs}\n  ..\n");
+                                    variants.push((format!("unused-{prefix}-construction-on-layers-in-use:{l}"), block, Some(end - 1)));
+                                }
+                            }
+                        }
+                    }
+                    offset += lines[k].len() + 1;
+                    k += 1;
+                }
+            }
             for (tag, block, marker) in variants {
                 if let Some(pos) = marker {
                     let mut t2 = text.clone();
